@@ -35,7 +35,23 @@ def _log(rec):
         os.close(fd)
 
 
-def _source_of_dump(path):
+def _toxml(b):
+    """ErrorLogger::toxml, used for the <file name=...> attribute of the dump (lossy: bytes >= 0x80 -> 'x')"""
+    rep = {0x3c: b'&lt;', 0x3e: b'&gt;', 0x26: b'&amp;', 0x22: b'&quot;', 0x27: b'&apos;', 0: b'\\0',
+           0x0a: b'&#10;', 0x09: b'&#09;', 0x0d: b'&#13;'}
+    out = bytearray()
+    for c in b:
+        if c in rep:
+            out += rep[c]
+        elif 0x20 <= c <= 0x7f:
+            out.append(c)
+        else:
+            out += b'x'
+    return bytes(out)
+
+
+def _source_of_dump(path, candidates):
+    """name of the analysed source: the script key whose dump spelling equals <file index="0" name=...>"""
     try:
         with open(path, 'rb') as f:
             data = f.read()
@@ -44,7 +60,11 @@ def _source_of_dump(path):
     m = re.search(rb'<file index="0" name="([^"]*)"', data)
     if not m:
         return None
-    name = m.group(1).decode('utf-8', 'surrogateescape')
+    raw = m.group(1)
+    for c in candidates:
+        if _toxml(c.encode('utf-8', 'surrogateescape')) == raw:
+            return c
+    name = raw.decode('utf-8', 'surrogateescape')
     for a, b in (('&lt;', '<'), ('&gt;', '>'), ('&quot;', '"'), ('&apos;', "'"), ('&amp;', '&')):
         name = name.replace(a, b)
     return name
@@ -84,7 +104,7 @@ def main():
         rec['ctu_files'] = cf
         entry = script.get('ctu')
     else:
-        src = _source_of_dump(files[0]) if files else None
+        src = _source_of_dump(files[0], list(script.get('files', {}))) if files else None
         rec['source'] = src
         entry = script.get('files', {}).get(src) if src is not None else None
         if entry is None:
